@@ -25,6 +25,8 @@ theorem run_getLimit (g : G0) : runG0 getLimit g = .ok (g.limit, g) := by
   simp [getLimit, runG0, stepG0]
 theorem run_setLimit (g : G0) (l : Option Nat) : runG0 (setLimit l) g = .ok ((), { g with limit := l }) := by
   simp [setLimit, runG0, stepG0]
+theorem run_getPos (g : G0) : runG0 getPos g = .ok (g.data.length, g) := by
+  simp [getPos, runG0, stepG0]
 theorem run_need (g : G0) (n : Nat) : runG0 (need n) g = .ok (decide (n ≤ g.view.length), g) := by
   simp [need, runG0, stepG0]
 
@@ -74,21 +76,21 @@ def lenOf : Option Nat → Length
   | none => .indefinite
 
 /-- the outcome of the value part of `process_next_value` once the header is known -/
-def bodyF (c : Cons) (op : Tag → Content → Prog (α × Content)) (g2 : G0) (id : Ident) (len? : Option Nat) :
+def bodyF (c : Cons) (op : Tag → Content → Prog (α × Content)) (hd : Nat) (g2 : G0) (id : Ident) (len? : Option Nat) :
     Res ((Option α × Cons) × G0) :=
   let tag := C12.tagOf id.cls id.num
   if isEocIdent id then
     if c.state = .indefinite then
       if id.constructed then .error .content
       else if len? ≠ some 0 then .error .content
-      else .ok ((none, { c with state := .done }), g2)
+      else .ok ((none, { c with state := .done, eoc := hd - g2.data.length }), g2)
     else .error .content
   else match len? with
     | some len =>
       if (match g2.limit with | some l => decide (len > l) | none => false) then .error .content
       else if id.constructed && c.mode == .cer then .error .content
       else
-        let content : Content := if id.constructed then .cons ⟨.definite, c.mode⟩ else .prim c.mode
+        let content : Content := if id.constructed then .cons ⟨.definite, c.mode, 0⟩ else .prim c.mode
         match runG0 (op tag content) (St g2.data (some len)) with
         | .error e => .error e
         | .ok ((res, content'), g3) =>
@@ -97,17 +99,17 @@ def bodyF (c : Cons) (op : Tag → Content → Prog (α × Content)) (g2 : G0) (
           | .ok (_, g4) => .ok ((some res, c), { g4 with limit := g2.limit.map (· - len) })
     | none =>
       if !id.constructed || c.mode == .der then .error .content
-      else match runG0 (op tag (.cons ⟨.indefinite, c.mode⟩)) g2 with
+      else match runG0 (op tag (.cons ⟨.indefinite, c.mode, 0⟩)) g2 with
         | .error e => .error e
         | .ok ((res, content'), g3) =>
           match runG0 content'.exhausted g3 with
           | .error e => .error e
           | .ok (_, g4) => .ok ((some res, c), g4)
 
-theorem pnv_body (c : Cons) (op : Tag → Content → Prog (α × Content)) (g2 : G0) (hf2 : g2.frames = [])
+theorem pnv_body (c : Cons) (op : Tag → Content → Prog (α × Content)) (hd : Nat) (g2 : G0) (hf2 : g2.frames = [])
     (id : Ident) (hb : id.cls ≤ 3 ∧ id.num ≤ 0x1fffff) (len? : Option Nat) :
-    runG0 (processValueBody c op (C12.tagOf id.cls id.num) id.constructed (lenOf len?)) g2 =
-      bodyF c op g2 id len? := by
+    runG0 (processValueBody c op hd (C12.tagOf id.cls id.num) id.constructed (lenOf len?)) g2 =
+      bodyF c op hd g2 id len? := by
   have heoc := tagOf_eoc id hb.1 hb.2
   unfold processValueBody bodyF
   by_cases he : isEocIdent id = true
@@ -122,7 +124,7 @@ theorem pnv_body (c : Cons) (op : Tag → Content → Prog (α × Content)) (g2 
         | none => simp [Length.isZero, lenOf]
         | some n =>
           cases n with
-          | zero => simp [Length.isZero, lenOf]
+          | zero => simp [Length.isZero, lenOf, runG0_bind, run_getPos]
           | succ n => simp [Length.isZero, lenOf]
     · simp [hi]
   · have ht : ¬ C12.tagOf id.cls id.num = Tag.END_OF_VALUE := fun h => he (heoc.mp h)
@@ -133,7 +135,7 @@ theorem pnv_body (c : Cons) (op : Tag → Content → Prog (α × Content)) (g2 
       by_cases h1 : (!id.constructed || c.mode == .der) = true
       · simp [h1]
       · simp only [h1, Bool.false_eq_true, if_false, runG0_bind]
-        cases runG0 (op (C12.tagOf id.cls id.num) (.cons ⟨.indefinite, c.mode⟩)) g2 with
+        cases runG0 (op (C12.tagOf id.cls id.num) (.cons ⟨.indefinite, c.mode, 0⟩)) g2 with
         | error e => rfl
         | ok r =>
           obtain ⟨⟨res, content'⟩, g3⟩ := r
@@ -154,7 +156,7 @@ theorem pnv_body (c : Cons) (op : Tag → Content → Prog (α × Content)) (g2 
         · simp only [h2, Bool.false_eq_true, if_false, runG0_bind]
           rw [hst]
           cases runG0 (op (C12.tagOf id.cls id.num)
-              (if id.constructed = true then Content.cons ⟨.definite, c.mode⟩ else Content.prim c.mode))
+              (if id.constructed = true then Content.cons ⟨.definite, c.mode, 0⟩ else Content.prim c.mode))
               (St g2.data (some len)) with
           | error e => rfl
           | ok r =>
@@ -173,7 +175,7 @@ theorem pnv_body (c : Cons) (op : Tag → Content → Prog (α × Content)) (g2 
           · simp only [h2, Bool.false_eq_true, if_false, runG0_bind]
             rw [hst]
             cases runG0 (op (C12.tagOf id.cls id.num)
-                (if id.constructed = true then Content.cons ⟨.definite, c.mode⟩ else Content.prim c.mode))
+                (if id.constructed = true then Content.cons ⟨.definite, c.mode, 0⟩ else Content.prim c.mode))
                 (St g2.data (some len)) with
             | error e => rfl
             | ok r =>
@@ -200,7 +202,7 @@ def pnvF (c : Cons) (op : Tag → Content → Prog (α × Content)) (g : G0) : R
   else if c.state = .unbounded ∧ g.view = [] then .ok ((none, c), g)
   else match headerF c.mode g with
     | none => .error .content
-    | some ((id, len?), g2) => bodyF c op g2 id len?
+    | some ((id, len?), g2) => bodyF c op g.data.length g2 id len?
 
 theorem run_isExhausted (c : Cons) (g : G0) :
     runG0 c.isExhausted g =
@@ -224,10 +226,10 @@ theorem pnv_eq (c : Cons) (op : Tag → Content → Prog (α × Content)) (g : G
         | none => return (none, c)
         | some (tag, constructed) =>
           let length ← Length.takeFrom c.mode
-          processValueBody c op tag constructed length) g =
+          processValueBody c op g.data.length tag constructed length) g =
       match headerF c.mode g with
       | none => .error .content
-      | some ((id, len?), g2) => bodyF c op g2 id len? := by
+      | some ((id, len?), g2) => bodyF c op g.data.length g2 id len? := by
     intro hne
     unfold headerF
     simp only [runG0_bind]
@@ -258,10 +260,10 @@ theorem pnv_eq (c : Cons) (op : Tag → Content → Prog (α × Content)) (g : G
       | some r2 =>
         obtain ⟨len?, kl⟩ := r2
         cases len? with
-        | none => simp only; exact pnv_body c op _ rfl id ⟨hc, hn⟩ none
-        | some n => simp only; exact pnv_body c op _ rfl id ⟨hc, hn⟩ (some n)
+        | none => simp only; exact pnv_body c op _ _ rfl id ⟨hc, hn⟩ none
+        | some n => simp only; exact pnv_body c op _ _ rfl id ⟨hc, hn⟩ (some n)
   unfold processNextValue pnvF
-  simp only [runG0_bind, run_isExhausted]
+  simp only [runG0_bind, run_isExhausted, run_getPos]
   cases hs : c.state with
   | done => simp
   | definite =>
@@ -289,7 +291,7 @@ theorem pnv_eq (c : Cons) (op : Tag → Content → Prog (α × Content)) (g : G
       have : runG0 c.takeOptTag g = .ok (none, g) := by
         unfold Cons.takeOptTag
         simp only [hs, if_true, tag_takeOptFrom0 g hf, hv]
-      simp [runG0_bind, this]
+      simp [runG0_bind, this, run_getPos]
     · have hne : ¬ (c.state = .unbounded ∧ g.view = []) := by simp [hv]
       have := hdr hne
       simp only [hs] at this ⊢
@@ -420,16 +422,32 @@ theorem rel0_some {β : Type} (r : Res (β × G0)) (y : β × G0) : Rel0 r (some
   | ok x => simp [Rel0]
   | error e => cases e <;> simp [Rel0]
 
-def specD (m : Mode) (f : Nat) (d : Bytes) (l : Nat) : Option ((List Tree × Cons) × G0) :=
+def specD (m : Mode) (e : Nat) (f : Nat) (d : Bytes) (l : Nat) : Option ((List Tree × Cons) × G0) :=
   if l ≤ d.length then
-    (parseAll (toM m) f (d.take l)).map fun ts => ((ts, ⟨.definite, m⟩), St (d.drop l) (some 0))
+    (parseAll (toM m) f (d.take l)).map fun ts => ((ts, ⟨.definite, m, e⟩), St (d.drop l) (some 0))
   else none
 
-def specU (m : Mode) (f : Nat) (d : Bytes) : Option ((List Tree × Cons) × G0) :=
-  (parseAll (toM m) f d).map fun ts => ((ts, ⟨.unbounded, m⟩), St [] none)
+def specU (m : Mode) (e : Nat) (f : Nat) (d : Bytes) : Option ((List Tree × Cons) × G0) :=
+  (parseAll (toM m) f d).map fun ts => ((ts, ⟨.unbounded, m, e⟩), St [] none)
+
+/-- the size of the end-of-contents marker that `parseUntilEoc` stops at (`Constructed::eoc_len`) -/
+def eocLen (m : M) : Nat → Bytes → Nat
+  | 0, _ => 0
+  | fuel + 1, bs =>
+    match readIdent bs with
+    | none => 0
+    | some (id, k) =>
+      if isEocIdent id then
+        match readLen m.isBer (bs.drop k) with
+        | some (_, kl) => k + kl
+        | none => 0
+      else match parseValue m fuel bs with
+        | some (_, rest) => eocLen m fuel rest
+        | none => 0
 
 def specI (m : Mode) (f : Nat) (g : G0) : Option ((List Tree × Cons) × G0) :=
-  (parseUntilEoc (toM m) f g.view).map fun p => ((p.1, ⟨.done, m⟩), g.adv (g.view.length - p.2.length))
+  (parseUntilEoc (toM m) f g.view).map fun p =>
+    ((p.1, ⟨.done, m, eocLen (toM m) f g.view⟩), g.adv (g.view.length - p.2.length))
 
 def specV (c : Cons) (f : Nat) (g : G0) : Option ((Option Tree × Cons) × G0) :=
   (parseValue (toM c.mode) f g.view).map fun p => ((some p.1, c), g.adv (g.view.length - p.2.length))
@@ -438,11 +456,11 @@ def specV (c : Cons) (f : Nat) (g : G0) : Option ((Option Tree × Cons) × G0) :
 def valuePart (c : Cons) (f : Nat) (g : G0) : Res ((Option Tree × Cons) × G0) :=
   match headerF c.mode g with
   | none => .error .content
-  | some ((id, len?), g2) => bodyF c (readValue f) g2 id len?
+  | some ((id, len?), g2) => bodyF c (readValue f) g.data.length g2 id len?
 
-def DS (f : Nat) : Prop := ∀ m d l, Rel0 (runG0 (readAll f ⟨.definite, m⟩) (St d (some l))) (specD m f d l)
-def IS (f : Nat) : Prop := ∀ m g, g.frames = [] → Rel0 (runG0 (readAll f ⟨.indefinite, m⟩) g) (specI m f g)
-def US (f : Nat) : Prop := ∀ m d, Rel0 (runG0 (readAll f ⟨.unbounded, m⟩) (St d none)) (specU m f d)
+def DS (f : Nat) : Prop := ∀ m e d l, Rel0 (runG0 (readAll f ⟨.definite, m, e⟩) (St d (some l))) (specD m e f d l)
+def IS (f : Nat) : Prop := ∀ m e g, g.frames = [] → Rel0 (runG0 (readAll f ⟨.indefinite, m, e⟩) g) (specI m f g)
+def US (f : Nat) : Prop := ∀ m e d, Rel0 (runG0 (readAll f ⟨.unbounded, m, e⟩) (St d none)) (specU m e f d)
 /-- in an indefinite parent the end-of-contents header is handled by the caller, not here -/
 def VS (f : Nat) : Prop := ∀ c g, g.frames = [] →
   (c.state = .indefinite → ∀ id k, readIdent g.view = some (id, k) → isEocIdent id = false) →
@@ -492,9 +510,9 @@ theorem ident_eta (id : Ident) (b : Bool) (h : id.constructed = b) : id = ⟨id.
 
 theorem adv_eq_St (g : G0) (n : Nat) : g.adv n = St (g.data.drop n) (g.limit.map (· - n)) := rfl
 
-theorem body_rel (f : Nat) (hD : DS f) (hI : IS f) (c : Cons) (g2 : G0) (hf2 : g2.frames = [])
+theorem body_rel (f : Nat) (hD : DS f) (hI : IS f) (c : Cons) (hd : Nat) (g2 : G0) (hf2 : g2.frames = [])
     (id : Ident) (hc : id.cls ≤ 3) (hn : id.num ≤ 0x1fffff) (hne : isEocIdent id = false) (len? : Option Nat) :
-    Rel0 (bodyF c (readValue (f + 1)) g2 id len?) (bodySpec c f id len? g2) := by
+    Rel0 (bodyF c (readValue (f + 1)) hd g2 id len?) (bodySpec c f id len? g2) := by
   have hg2 : g2 = St g2.data g2.limit := by
     cases g2 with
     | mk d l fr => simp at hf2; subst hf2; rfl
@@ -534,17 +552,17 @@ theorem body_rel (f : Nat) (hD : DS f) (hI : IS f) (c : Cons) (g2 : G0) (hf2 : g
           by_cases hs : g2.view.length < n <;> simp [hs, Rel0]
         · simp only [hcer, Bool.false_eq_true, if_false]
           -- the closure: descend
-          have hrv : ∀ g, runG0 (readValue (f + 1) (C12.tagOf id.cls id.num) (.cons ⟨.definite, c.mode⟩)) g =
-              match runG0 (readAll f ⟨.definite, c.mode⟩) g with
+          have hrv : ∀ g, runG0 (readValue (f + 1) (C12.tagOf id.cls id.num) (.cons ⟨.definite, c.mode, 0⟩)) g =
+              match runG0 (readAll f ⟨.definite, c.mode, 0⟩) g with
               | .ok ((kids, c'), g') => .ok ((.cons ⟨id.cls, true, id.num⟩ false kids, .cons c'), g')
               | .error e => .error e := by
             intro g
             simp only [readValue, runG0_bind, hid]
-            cases runG0 (readAll f ⟨.definite, c.mode⟩) g with
+            cases runG0 (readAll f ⟨.definite, c.mode, 0⟩) g with
             | error e => rfl
             | ok r => obtain ⟨⟨kids, c'⟩, g'⟩ := r; rfl
           rw [hrv]
-          have hd := hD c.mode g2.data n
+          have hd := hD c.mode 0 g2.data n
           unfold specD at hd
           by_cases hs : g2.data.length < n
           · have hs' : g2.view.length < n := hlen.mpr hs
@@ -598,17 +616,17 @@ theorem body_rel (f : Nat) (hD : DS f) (hI : IS f) (c : Cons) (g2 : G0) (hf2 : g
     · simp only [h1, Bool.false_eq_true, if_false]
       have hcons : id.constructed = true := by
         cases hc' : id.constructed <;> simp [hc'] at h1 ⊢
-      have hrv : ∀ g, runG0 (readValue (f + 1) (C12.tagOf id.cls id.num) (.cons ⟨.indefinite, c.mode⟩)) g =
-          match runG0 (readAll f ⟨.indefinite, c.mode⟩) g with
+      have hrv : ∀ g, runG0 (readValue (f + 1) (C12.tagOf id.cls id.num) (.cons ⟨.indefinite, c.mode, 0⟩)) g =
+          match runG0 (readAll f ⟨.indefinite, c.mode, 0⟩) g with
           | .ok ((kids, c'), g') => .ok ((.cons ⟨id.cls, true, id.num⟩ true kids, .cons c'), g')
           | .error e => .error e := by
         intro g
         simp only [readValue, runG0_bind, hid]
-        cases runG0 (readAll f ⟨.indefinite, c.mode⟩) g with
+        cases runG0 (readAll f ⟨.indefinite, c.mode, 0⟩) g with
         | error e => rfl
         | ok r => obtain ⟨⟨kids, c'⟩, g'⟩ := r; rfl
       rw [hrv]
-      have hi := hI c.mode g2 hf2
+      have hi := hI c.mode 0 g2 hf2
       unfold specI at hi
       cases hp : parseUntilEoc (toM c.mode) f g2.view with
       | none =>
@@ -656,7 +674,7 @@ theorem vs_step (f : Nat) (hD : DS f) (hI : IS f) : VS (f + 1) := by
         · simp [hst, Rel0]
       · have he' : isEocIdent id = false := by simpa using he
         simp only [he', Bool.false_eq_true, if_false]
-        have hb := body_rel f hD hI c ((g.adv k).adv kl) (adv_frames _ _) id hc hn he' len?
+        have hb := body_rel f hD hI c g.data.length ((g.adv k).adv kl) (adv_frames _ _) id hc hn he' len?
         have hkv : kl ≤ (g.adv k).view.length := by rw [hv1, List.length_drop]; exact hkl
         have hv2 : ((g.adv k).adv kl).view = g.view.drop (k + kl) := by
           rw [G0.adv_view _ _ hkv, hv1, List.drop_drop]
@@ -738,14 +756,14 @@ theorem St_view_none (d : Bytes) : (St d none).view = d := rfl
 theorem St_view_some (d : Bytes) (l : Nat) : (St d (some l)).view = d.take l := rfl
 
 theorem us_step (f : Nat) (hV : VS f) (hU : US f) : US (f + 1) := by
-  intro m d
+  intro m e d
   rw [readAll_run _ _ _ rfl]
   unfold allF specU
   by_cases hd : d = []
   · subst hd
     simp [pnvF, parseAll, Rel0, G0.view]
   · rw [pnvF_value _ _ _ (by simp) (by simp) (by simp) (by simpa [G0.view] using hd)]
-    have hv := hV ⟨.unbounded, m⟩ (St d none) rfl (by simp)
+    have hv := hV ⟨.unbounded, m, e⟩ (St d none) rfl (by simp)
     unfold specV at hv
     simp only [St_view_none] at hv
     have hemp : d.isEmpty = false := by cases d <;> simp_all
@@ -766,7 +784,7 @@ theorem us_step (f : Nat) (hV : VS f) (hU : US f) : US (f + 1) := by
         simp only [G0.adv, List.length_drop, Option.map]
         congr 2; omega
       rw [hadv]
-      have hu := hU m rest
+      have hu := hU m e rest
       unfold specU at hu
       cases hq : parseAll (toM m) f rest with
       | none =>
@@ -780,21 +798,21 @@ theorem us_step (f : Nat) (hV : VS f) (hU : US f) : US (f + 1) := by
 
 
 theorem ds_step (f : Nat) (hV : VS f) (hD : DS f) : DS (f + 1) := by
-  intro m d l
+  intro m e d l
   rw [readAll_run _ _ _ rfl]
   unfold allF specD
   by_cases hl : l = 0
   · subst hl
     simp [pnvF, parseAll, Rel0]
   · rw [pnvF_value _ _ _ (by simp) (by simp) (by simpa using hl) (by simp)]
-    have hv := hV ⟨.definite, m⟩ (St d (some l)) rfl (by simp)
+    have hv := hV ⟨.definite, m, e⟩ (St d (some l)) rfl (by simp)
     unfold specV at hv
     simp only [St_view_some] at hv
     cases hp : parseValue (toM m) f (d.take l) with
     | none =>
       rw [hp] at hv
       have hspec : (if l ≤ d.length then
-          (parseAll (toM m) (f + 1) (d.take l)).map fun ts => ((ts, (⟨.definite, m⟩ : Cons)), St (d.drop l) (some 0))
+          (parseAll (toM m) (f + 1) (d.take l)).map fun ts => ((ts, (⟨.definite, m, e⟩ : Cons)), St (d.drop l) (some 0))
           else none) = none := by
         by_cases hle : l ≤ d.length
         · have hemp : (d.take l).isEmpty = false := by
@@ -821,7 +839,7 @@ theorem ds_step (f : Nat) (hV : VS f) (hD : DS f) : DS (f + 1) := by
         have : min l d.length - (min l d.length - n) = n := by omega
         rw [this]
       rw [hadv]
-      have hd := hD m (d.drop n) (l - n)
+      have hd := hD m e (d.drop n) (l - n)
       unfold specD at hd
       simp only [List.length_drop] at hd
       by_cases hle : l ≤ d.length
@@ -855,7 +873,7 @@ theorem ds_step (f : Nat) (hV : VS f) (hD : DS f) : DS (f + 1) := by
 
 
 theorem is_step (f : Nat) (hV : VS f) (hI : IS f) : IS (f + 1) := by
-  intro m g hf
+  intro m e g hf
   rw [readAll_run _ _ _ hf]
   unfold allF specI
   simp only [parseUntilEoc]
@@ -870,9 +888,9 @@ theorem is_step (f : Nat) (hV : VS f) (hI : IS f) : IS (f + 1) := by
     · -- the end-of-contents marker
       simp only [he, if_true]
       simp only [pnvF, headerF, hri, hv1, toM_isBer]
-      simp only [show ((⟨.indefinite, m⟩ : Cons).state = .done) = False from by simp,
-        show ((⟨.indefinite, m⟩ : Cons).state = .definite) = False from by simp,
-        show ((⟨.indefinite, m⟩ : Cons).state = .unbounded) = False from by simp, false_and, if_false]
+      simp only [show ((⟨.indefinite, m, e⟩ : Cons).state = .done) = False from by simp,
+        show ((⟨.indefinite, m, e⟩ : Cons).state = .definite) = False from by simp,
+        show ((⟨.indefinite, m, e⟩ : Cons).state = .unbounded) = False from by simp, false_and, if_false]
       cases hrl : readLen m.isBer (g.view.drop k) with
       | none => by_cases hcn : id.constructed = true <;> simp [hcn, Rel0]
       | some r2 =>
@@ -889,6 +907,10 @@ theorem is_step (f : Nat) (hV : VS f) (hI : IS f) : IS (f + 1) := by
             rw [G0.adv_adv]
             have : g.view.length - (g.view.length - (k + kl)) = k + kl := by omega
             rw [this]
+            have hdl := G0.view_length_le g
+            have he2 : g.data.length - (g.adv (k + kl)).data.length = k + kl := by
+              simp only [G0.adv, List.length_drop]; omega
+            simp only [he2, eocLen, hri, he, if_true, toM_isBer, hrl]
           · have : (match len?, kl with
                 | some 0, kl => some (([] : List Tree), g.view.drop (k + kl))
                 | _, _ => none) = none := by
@@ -901,7 +923,7 @@ theorem is_step (f : Nat) (hV : VS f) (hI : IS f) : IS (f + 1) := by
     · have he' : isEocIdent id = false := by simpa using he
       simp only [he', Bool.false_eq_true, if_false]
       rw [pnvF_value _ _ _ (by simp) (by simp) (by simp) (by simp)]
-      have hv := hV ⟨.indefinite, m⟩ g hf (by
+      have hv := hV ⟨.indefinite, m, e⟩ g hf (by
         intro _ id' k' h'
         rw [hri] at h'; cases h'; exact he')
       unfold specV at hv
@@ -919,7 +941,7 @@ theorem is_step (f : Nat) (hV : VS f) (hI : IS f) : IS (f + 1) := by
         have hlen : g.view.length - rest.length = n := by
           rw [hrest, List.length_drop]; omega
         rw [hlen]
-        have hi := hI m (g.adv n) (adv_frames _ _)
+        have hi := hI m e (g.adv n) (adv_frames _ _)
         unfold specI at hi
         have hvn : (g.adv n).view = rest := by rw [G0.adv_view g n hn, hrest]
         rw [hvn] at hi
@@ -933,7 +955,9 @@ theorem is_step (f : Nat) (hV : VS f) (hI : IS f) : IS (f + 1) := by
           simp only [Option.map] at hi
           rw [rel0_some] at hi
           obtain ⟨j, hj, hrest'⟩ := (suffix_lemma (toM m) f).2 _ _ _ hq
-          simp only [hi, Option.map, Rel0, Prod.mk.injEq, true_and]
+          have hel : eocLen (toM m) (f + 1) g.view = eocLen (toM m) f rest := by
+            simp only [eocLen, hri, he', Bool.false_eq_true, if_false, hp]
+          simp only [hi, Option.map, Rel0, Prod.mk.injEq, true_and, hel]
           rw [G0.adv_adv]
           congr 1
           rw [hrest', hrest] at *
@@ -978,15 +1002,15 @@ theorem all_levels : ∀ f, DS f ∧ IS f ∧ US f ∧ VS f := by
   induction f with
   | zero =>
     refine ⟨?_, ?_, ?_, vs_zero⟩
-    · intro m d l
-      have : runG0 (readAll 0 ⟨.definite, m⟩) (St d (some l)) = .error .fuel := rfl
+    · intro m e d l
+      have : runG0 (readAll 0 ⟨.definite, m, e⟩) (St d (some l)) = .error .fuel := rfl
       rw [this]; unfold specD
       by_cases h : l ≤ d.length <;> simp [h, parseAll, Rel0]
-    · intro m g _
-      have : runG0 (readAll 0 ⟨.indefinite, m⟩) g = .error .fuel := rfl
+    · intro m e g _
+      have : runG0 (readAll 0 ⟨.indefinite, m, e⟩) g = .error .fuel := rfl
       rw [this]; simp [specI, parseUntilEoc, Rel0]
-    · intro m d
-      have : runG0 (readAll 0 ⟨.unbounded, m⟩) (St d none) = .error .fuel := rfl
+    · intro m e d
+      have : runG0 (readAll 0 ⟨.unbounded, m, e⟩) (St d none) = .error .fuel := rfl
       rw [this]; simp [specU, parseAll, Rel0]
   | succ f ih =>
     obtain ⟨hD, hI, hU, hV⟩ := ih
@@ -1014,7 +1038,7 @@ def decodeAll (m : Mode) (f : Nat) : Prog (List Tree) := decodeTop m (readAll f)
 
 theorem decode_run (m : Mode) (f : Nat) (d : Bytes) :
     Rel0 (runG0 (decodeAll m f) (St d none)) ((parseAll (toM m) f d).map fun ts => (ts, St [] none)) := by
-  have hu := (refines f).2.2.1 m d
+  have hu := (refines f).2.2.1 m 0 d
   unfold specU at hu
   unfold decodeAll decodeTop
   simp only [runG0_bind]
@@ -1095,11 +1119,11 @@ theorem rejects_runG (m : Mode) (f : Nat) (d : Bytes) (e : Err) (hp : e.isPanic 
 
 /-- nested in a definite parent: a child may not extend past the parent (`l` octets left) -/
 theorem definite_parent (m : Mode) (f : Nat) (d : Bytes) (l : Nat) :
-    Rel0 (runG0 (readAll f ⟨.definite, m⟩) (St d (some l))) (specD m f d l) := (refines f).1 m d l
+    Rel0 (runG0 (readAll f ⟨.definite, m, 0⟩) (St d (some l))) (specD m 0 f d l) := (refines f).1 m 0 d l
 
 /-- nested in an indefinite parent: read up to and including the end-of-contents octets -/
 theorem indefinite_parent (m : Mode) (f : Nat) (g : G0) (hf : g.frames = []) :
-    Rel0 (runG0 (readAll f ⟨.indefinite, m⟩) g) (specI m f g) := (refines f).2.1 m g hf
+    Rel0 (runG0 (readAll f ⟨.indefinite, m, 0⟩) g) (specI m f g) := (refines f).2.1 m 0 g hf
 
 /-! non-vacuity: concrete inputs on both sides of the relation -/
 example : parseAll .ber 5 [0x30, 0x80, 0x04, 0x01, 0xaa, 0x00, 0x00, 0x02, 0x01, 0x05] =
